@@ -62,6 +62,10 @@ class AnyMatcher(BaseMatcher):
     _instance: ClassVar[AnyMatcher | None] = None
 
     def __new__(cls, *args: Any, **kwargs: Any) -> AnyMatcher:
+        if kwargs.get("name") is not None:
+            # A capturing matcher carries its own name, never share it
+            return object.__new__(cls)
+
         if cls._instance is None:
             cls._instance = object.__new__(cls)
         return cls._instance
